@@ -308,6 +308,29 @@ def check_config(ctx, c):
         result("terminates", True, "", "")
         same = texts[0] == texts[1] == texts[2]
         result("repeatable", same, "RTLIL text differs between elaborations of one instance" if not same else "", f"repeatable:{kind}:rtlil-differs")
+        # a second INSTANCE built from the same parameters, after the first one was built and elaborated, is the same hardware
+        # (no class-level / module-level / default-argument state shared between instances)
+        try:
+            comp_b, mm_b = build(kind, cfg)
+            ports_b = []
+            if hasattr(comp_b, "signature"):
+                for _p, _m, sig in comp_b.signature.flatten(comp_b):
+                    ports_b.append(sig.as_value() if hasattr(sig, "as_value") else sig)
+            signal.alarm(180)
+            text_b = rtlil.convert(comp_b, ports=ports_b)
+            result("second_instance_same_hardware", text_b == texts[0],
+                   "" if text_b == texts[0] else f"a second instance built from the same parameters elaborates differently (RTLIL lengths {len(text_b)} vs {len(texts[0])})",
+                   f"second_instance_same_hardware:{kind}")
+            sb = snapshot(mm_b)
+            strip = lambda sn: None if sn is None else ([x[1:] for x in sn[0]], [x[1:] for x in sn[1]])
+            result("second_instance_same_map", strip(sb) == strip(before),
+                   "" if strip(sb) == strip(before) else f"memory map of a second instance differs: {strip(before)} vs {strip(sb)}",
+                   f"second_instance_same_map:{kind}")
+        except _Timeout:
+            raise
+        except Exception as e:
+            result("second_instance_same_hardware", False, f"building/elaborating a second instance raised {type(e).__name__}: {e} at {where(e)}",
+                   f"second_instance_same_hardware:{kind}:{type(e).__name__}")
         after = snapshot(mm)
         result("metadata_kept", before == after, f"memory map changed by elaboration: {before} -> {after}" if before != after else "",
                f"metadata_kept:{kind}")
